@@ -73,7 +73,7 @@ theorem refresh_stays_registered (msk : Msk) (usk : Usk) (keep : Bool) (n : Rng)
 
 /-- in every reachable world all registered identifiers are made of tokens drawn already -/
 theorem reachable_usersBelow (w : World) (hw : Reachable w) : w.UsersBelow := by
-  obtain ⟨n, ops, rfl⟩ := hw
+  obtain ⟨n, k, ops, rfl⟩ := hw
   have hstep : ∀ (ops : List Op) (w0 : World), Reachable w0 → w0.UsersBelow → (ops.foldl World.step w0).UsersBelow := by
     intro ops
     induction ops with
@@ -81,22 +81,22 @@ theorem reachable_usersBelow (w : World) (hw : Reachable w) : w.UsersBelow := by
     | cons op rest ih =>
       intro w0 hr h0
       have hr' : Reachable (w0.step op) := by
-        obtain ⟨n0, ops0, rfl⟩ := hr
-        exact ⟨n0, ops0 ++ [op], by simp [List.foldl_append]⟩
+        obtain ⟨n0, k0, ops0, rfl⟩ := hr
+        exact ⟨n0, k0, ops0 ++ [op], by simp [List.foldl_append]⟩
       apply ih _ hr'
       intro id hid m hm
       rcases step_users w0 op id hid with h | h
       · exact Nat.lt_of_lt_of_le (h0 id h m hm) (step_rng_mono w0 op (reachable_inv w0 hr))
       · exact (h m hm).2
-  apply hstep ops _ ⟨n, [], rfl⟩
+  apply hstep ops _ ⟨n, k, [], rfl⟩
   -- the initial world registers nobody
   intro id hid
-  have : (World.init n).msk.users = [] := by
+  have : (World.init n k).msk.users = [] := by
     unfold World.init updateMsk
     split
     · rfl
     · simp only
-      rcases updateLoop ((setup n).1.secrets.retain fun r => ((setup n).1.structure_.omega.lookup r).isSome) (setup n).1.structure_.omega (setup n).2 with ⟨res, n'⟩
+      rcases updateLoop ((setup n k).1.secrets.retain fun r => ((setup n k).1.structure_.omega.lookup r).isSome) (setup n k).1.structure_.omega (setup n k).2 with ⟨res, n'⟩
       cases res <;> rfl
   simp only [List.foldl_nil] at hid
   rw [this] at hid; cases hid
